@@ -102,3 +102,61 @@ func runC11(seed int64, count int) {
 		}
 	}
 }
+
+// C18 (streaming entry point): ReadFrom on a queued channel in non-blocking mode whose sender is stalled
+// (the executor does not run it): the chunks that fit are queued, the first that does not must be refused
+// at once. A call that has not returned after 2 s is reported as a hang.
+func runC18rf(seed int64, count int) {
+	rng := rand.New(rand.NewSource(seed ^ 0x18))
+	for cs := 0; cs < count; cs++ {
+		emit("#case c18rf-%d", cs)
+		q := 1 + rng.Intn(3)
+		nch := 1 + rng.Intn(6)
+		chunks := make([][]byte, nch)
+		hs := make([]string, nch)
+		for i := range chunks {
+			chunks[i] = randPayload(rng, 1+rng.Intn(30))
+			if rng.Intn(4) == 0 {
+				chunks[i] = randPayload(rng, 1024)
+			}
+			hs[i] = hex.EncodeToString(chunks[i])
+		}
+		pl := netty.NewPipeline()
+		tr := mock.NewTransport()
+		dexec := &deferExec{}
+		ch := netty.NewAsyncWriteChannel(q, false)(int64(cs), context.Background(), pl, tr, dexec)
+		netty.NvAttach(pl, ch)
+		rd := &closingReader{chunks: chunks, closeAt: 0, ch: ch}
+		var n int64
+		var err error
+		done := make(chan struct{})
+		go func() {
+			defer close(done)
+			guard(func() { n, err = ch.ReadFrom(rd) })
+		}()
+		hang := 0
+		select {
+		case <-done:
+		case <-time.After(2 * time.Second):
+			hang = 1
+		}
+		if hang == 1 {
+			emit("C18 rf q=%d %s n=0 err=- queued=- hang=1", q, strings.Join(hs, ","))
+			continue
+		}
+		dexec.runAll()
+		deadline := time.Now().Add(2 * time.Second)
+		for (netty.NvQueueLen(ch) > 0 || netty.NvSenderRunning(ch)) && time.Now().Before(deadline) {
+			time.Sleep(50 * time.Microsecond)
+		}
+		cls := "nil"
+		switch {
+		case errors.Is(err, netty.ErrAsyncNoSpace):
+			cls = "nospace"
+		case err != nil:
+			cls = "other"
+		}
+		emit("C18 rf q=%d %s n=%d err=%s queued=%s hang=0", q, strings.Join(hs, ","), n, cls, hexOrDash(tr.Written()))
+		ch.Close(nil)
+	}
+}
